@@ -69,16 +69,19 @@ class C08(Check):
 
     def gen_case(self, rng, tier):
         specs = []
+        # (names of which one is a prefix of the other: scopes are kept by name)
+        modnames = rng.choice([['m0', 'm1'], ['m0', 'm01'], ['m10', 'm1']])
+        parnames = rng.choice([['p0', 'p1'], ['p0', 'p01'], ['p10', 'p1']])
         for i in range(2):
             base = rng.choice(['Readable', 'Module', 'Readable'])
-            spec = {'name': f'm{i}', 'base': base, 'export': True, 'params': [], 'cmds': [],
+            spec = {'name': modnames[i], 'base': base, 'export': True, 'params': [], 'cmds': [],
                     'pollinterval': rng.choice([0.1, 0.3, 1.0]), 'slowinterval': rng.choice([0.1, 0.5, 2.0]),
                     'omit': rng.choice([None, 0, 0])}
             if base == 'Readable':
                 spec['params'].append({'name': 'value', 'di': {'type': 'double'}, 'read': True, 'readonly': True,
                                        'default': None, 'init': 0.0, 'export': True})
             for j in range(rng.randrange(1, 3)):
-                spec['params'].append({'name': f'p{j}', 'di': {'type': 'int', 'min': -16777216, 'max': 16777216},
+                spec['params'].append({'name': parnames[j], 'di': {'type': 'int', 'min': -16777216, 'max': 16777216},
                                        'read': rng.random() < 0.7, 'readonly': True, 'default': 0, 'export': True,
                                        'unchanged': rng.choice(['default', 'always'])})
             if rng.random() < 0.3:
